@@ -41,7 +41,9 @@ Judge(rec) ==
           <<class = "positive" => (o.ok /\ o.signer = rec.signed_by /\ ref.wf /\ ParasMatch(o.paras, ref.paras)),
             "validly signed document with the signer in the keyring was not accepted faithfully">>,
           <<class = "plain" => (o.ok /\ o.signer = "none" /\ ref.wf /\ ParasMatch(o.paras, ref.paras)),
-            "plain document not read faithfully / signer reported for unsigned input">> >>)
+            "plain document not read faithfully / signer reported for unsigned input">>,
+          <<~rec.slice.panic /\ rec.slice.ok = o.ok /\ (o.ok => rec.slice.n = Len(o.paras)),
+            "decoding the same bytes into a slice of structs succeeds / fails differently from reading all paragraphs">> >>)
 
 \* ---- several signature packets in the armored signature --------------------------------------------------
 \* the document may be accepted only if ONE of the packets is a signature by a keyring key over the signed text
@@ -57,7 +59,9 @@ JudgeMulti(rec) ==
             "clearsigned input was accepted although none of the signature packets is a signature by a keyring key over the text">>,
           <<o.signer # "none" => o.signer \in ring, "reported signer is not a key of the keyring">>,
           <<o.next_paras # <<>> => (ref.wf /\ Len(o.next_paras) <= Len(ref.paras) /\ ParasMatch(o.next_paras, SubSeq(ref.paras, 1, Len(o.next_paras)))),
-            "paragraphs returned are not those of the signed text">> >>)
+            "paragraphs returned are not those of the signed text">>,
+          <<~rec.slice.panic /\ rec.slice.ok = o.ok /\ (o.ok => rec.slice.n = Len(o.paras)),
+            "decoding the same bytes into a slice of structs succeeds / fails differently from reading all paragraphs">> >>)
 
 \* ---- several readers alive in one process -------------------------------------------------------------
 \* abstract state per reader: the document it was opened on and how many paragraphs it has handed out.  The
